@@ -108,7 +108,7 @@ Proof.
     intros H. apply andb_true_iff in H as [H HE]. apply andb_true_iff in H as [H HD].
     apply andb_true_iff in H as [H HC]. apply andb_true_iff in H as [HA HB].
     apply N.eqb_eq in HA. apply fkind_eqb_eq in HB. apply optlit_eqb_eq in HC. apply Ht in HD. apply IHq in HE.
-    unfold f_ty in HD. simpl in HD. congruence.
+    unfold f_ty in HD. simpl in HD. subst. reflexivity.
   - reflexivity.
   - reflexivity.
 Qed.
@@ -190,6 +190,7 @@ Inductive FR (ce : cenv) : list fdecl -> list (N * pv) -> list (N * pv) -> list 
     FR ce ((n, KTransient, Some l, t) :: fq) ((n, y) :: vq) rq sq
 | FR_ser n k d t y raw a fq vq rq sq :
     k <> KTransient ->
+    instb t y = true ->
     (match k with KBinary => if is_obj y then ser cf ce true y else ser cf ce false y | _ => ser cf ce false y end) = Ok raw ->
     (match k with KBinary => a = ABin | _ => infer cf t = Ok a end) ->
     arrow_rt a raw = Ok raw ->
@@ -200,7 +201,7 @@ Inductive FR (ce : cenv) : list fdecl -> list (N * pv) -> list (N * pv) -> list 
 Lemma FR_to_row ce fs vals row sch : FR ce fs vals row sch ->
   to_row_with (ser cf ce true) (ser cf ce false) fs vals = Ok row.
 Proof.
-  induction 1 as [|n l t y fq vq rq sq Hy _ IH|n k d t y raw a fq vq rq sq Hk Hser Ha Har Hde _ IH]; simpl.
+  induction 1 as [|n l t y fq vq rq sq Hy _ IH|n k d t y raw a fq vq rq sq Hk Hins Hser Ha Har Hde _ IH]; simpl.
   - reflexivity.
   - exact IH.
   - destruct k; [|rewrite Hser; simpl; rewrite IH; reflexivity|congruence].
@@ -210,7 +211,7 @@ Qed.
 Lemma FR_schema ce fs vals row sch : FR ce fs vals row sch -> schema_fields cf fs = Ok sch.
 Proof.
   unfold schema_fields.
-  induction 1 as [|n l t y fq vq rq sq Hy _ IH|n k d t y raw a fq vq rq sq Hk Hser Ha Har Hde _ IH]; simpl.
+  induction 1 as [|n l t y fq vq rq sq Hy _ IH|n k d t y raw a fq vq rq sq Hk Hins Hser Ha Har Hde _ IH]; simpl.
   - reflexivity.
   - exact IH.
   - destruct k; [|subst a; rewrite IH; reflexivity|congruence].
@@ -219,7 +220,7 @@ Qed.
 
 Lemma FR_names_sub ce fs vals row sch : FR ce fs vals row sch -> forall m, In m (map fst row) -> In m (map f_name fs).
 Proof.
-  induction 1 as [|n l t y fq vq rq sq Hy _ IH|n k d t y raw a fq vq rq sq Hk Hser Ha Har Hde _ IH]; simpl; intros m Hm.
+  induction 1 as [|n l t y fq vq rq sq Hy _ IH|n k d t y raw a fq vq rq sq Hk Hins Hser Ha Har Hde _ IH]; simpl; intros m Hm.
   - contradiction.
   - right. auto.
   - destruct Hm as [Hm|Hm]; [left; exact Hm|right; auto].
@@ -227,7 +228,7 @@ Qed.
 
 Lemma FR_nodup ce fs vals row sch : FR ce fs vals row sch -> nodupb (map f_name fs) = true -> nodupb (map fst row) = true.
 Proof.
-  induction 1 as [|n l t y fq vq rq sq Hy Hfr IH|n k d t y raw a fq vq rq sq Hk Hser Ha Har Hde Hfr IH]; simpl; intros Hnd.
+  induction 1 as [|n l t y fq vq rq sq Hy Hfr IH|n k d t y raw a fq vq rq sq Hk Hins Hser Ha Har Hde Hfr IH]; simpl; intros Hnd.
   - reflexivity.
   - apply andb_true_iff in Hnd as [_ Hq]. auto.
   - apply andb_true_iff in Hnd as [Hn Hq]. apply andb_true_iff. split; [|auto].
@@ -240,7 +241,7 @@ Lemma FR_arrow ce fs vals row sch : FR ce fs vals row sch ->
   forall whole, (forall n raw, In (n, raw) row -> row_get n whole = raw) ->
   arrow_fields_with arrow_rt whole sch = Ok row.
 Proof.
-  induction 1 as [|n l t y fq vq rq sq Hy _ IH|n k d t y raw a fq vq rq sq Hk Hser Ha Har Hde _ IH]; simpl; intros whole Hw.
+  induction 1 as [|n l t y fq vq rq sq Hy _ IH|n k d t y raw a fq vq rq sq Hk Hins Hser Ha Har Hde _ IH]; simpl; intros whole Hw.
   - reflexivity.
   - auto.
   - rewrite (Hw n raw (or_introl eq_refl)). rewrite Har. simpl.
@@ -252,7 +253,7 @@ Lemma FR_kwargs ce fs vals row sch : FR ce fs vals row sch ->
   rowclean row = true ->
   kwargs (de cf) bm fs whole = Ok (map (fun p => Some (snd p)) vals).
 Proof.
-  induction 1 as [|n l t y fq vq rq sq Hy _ IH|n k d t y raw a fq vq rq sq Hk Hser Ha Har Hde _ IH]; simpl; intros whole bm Hw Hc.
+  induction 1 as [|n l t y fq vq rq sq Hy _ IH|n k d t y raw a fq vq rq sq Hk Hins Hser Ha Har Hde _ IH]; simpl; intros whole bm Hw Hc.
   - reflexivity.
   - rewrite (IH whole bm Hw Hc). subst y. reflexivity.
   - apply andb_true_iff in Hc as [Hc1 Hc2].
@@ -265,7 +266,7 @@ Qed.
 Lemma FR_construct ce fs vals row sch : FR ce fs vals row sch ->
   construct_vals fs (map (fun p => Some (snd p)) vals) = Ok vals.
 Proof.
-  induction 1 as [|n l t y fq vq rq sq Hy _ IH|n k d t y raw a fq vq rq sq Hk Hser Ha Har Hde _ IH]; simpl.
+  induction 1 as [|n l t y fq vq rq sq Hy _ IH|n k d t y raw a fq vq rq sq Hk Hins Hser Ha Har Hde _ IH]; simpl.
   - reflexivity.
   - rewrite IH. reflexivity.
   - rewrite IH. reflexivity.
@@ -275,12 +276,15 @@ Lemma FR_required ce fs vals row sch : FR ce fs vals row sch ->
   forall whole, (forall n raw, In (n, raw) row -> row_mem n whole = true) ->
   existsb (fun f => required f && negb (row_mem (f_name f) whole)) fs = false.
 Proof.
-  induction 1 as [|n l t y fq vq rq sq Hy _ IH|n k d t y raw a fq vq rq sq Hk Hser Ha Har Hde _ IH]; simpl; intros whole Hw.
+  induction 1 as [|n l t y fq vq rq sq Hy _ IH|n k d t y raw a fq vq rq sq Hk Hins Hser Ha Har Hde _ IH]; simpl; intros whole Hw.
   - reflexivity.
   - apply IH. exact Hw.
   - unfold f_name at 1. simpl. rewrite (Hw n raw (or_introl eq_refl)). simpl. rewrite andb_false_r. simpl.
     apply IH. intros n' raw' Hin. apply (Hw n' raw'). right. exact Hin.
 Qed.
+
+Lemma match_false {A : Type} (l : list A) : match l with [] => false | _ :: _ => false end = false.
+Proof. destruct l; reflexivity. Qed.
 
 (* what a registered, well-formed class does with an instance related by FR *)
 Section Obj.
@@ -307,9 +311,9 @@ Section Obj.
   Lemma obj_from_bytes : rowclean row = true -> from_bytes (de cf) c fs (VIpcRow true row) = Ok (VObj c vals).
   Proof.
     intros Hc. unfold from_bytes. simpl.
-    assert (Hr : match row with [] => false | _ :: _ => existsb (fun f => required f && negb (row_mem (f_name f) row)) fs end = false).
-    { destruct row eqn:E; [reflexivity|]. rewrite <- E. apply (FR_required _ _ _ _ _ Hfr). intros n raw Hin. apply obj_whole in Hin. tauto. }
-    rewrite Hr. rewrite (FR_kwargs _ _ _ _ _ Hfr row true obj_whole Hc). simpl.
+    assert (Hx : existsb (fun f => required f && negb (row_mem (f_name f) row)) fs = false).
+    { apply (FR_required _ _ _ _ _ Hfr). intros n raw Hin. apply obj_whole in Hin. tauto. }
+    rewrite Hx. rewrite match_false. rewrite (FR_kwargs _ _ _ _ _ Hfr row true obj_whole Hc). simpl.
     unfold construct. rewrite (FR_construct _ _ _ _ _ Hfr). reflexivity.
   Qed.
 
@@ -320,8 +324,8 @@ Section Obj.
 
   Lemma obj_ser_true : ser cf ce true (VObj c vals) = Ok (VIpcRow (batch_valid sch row) row).
   Proof.
-    rewrite (ser_obj_true _ _ _ _ Hlk). rewrite (FR_to_row _ _ _ _ _ Hfr). simpl.
-    unfold encode_row. rewrite (FR_schema _ _ _ _ _ Hfr). simpl bind at 1.
-    rewrite obj_arrow. reflexivity.
+    rewrite (ser_obj_true _ _ _ _ Hlk). rewrite (bind_ok _ _ _ (FR_to_row _ _ _ _ _ Hfr)).
+    unfold encode_row. rewrite (bind_ok _ _ _ (FR_schema _ _ _ _ _ Hfr)).
+    rewrite (bind_ok _ _ _ obj_arrow). reflexivity.
   Qed.
 End Obj.
